@@ -386,3 +386,8 @@ def run(prog, chk):
     judged, alias_stores = memrules.alias_pair_free(prog, r5)
     if alias_stores < 1 or judged < 4:
         raise Broken("key/key_orig sites vanished (%d frees, %d alias stores)" % (judged, alias_stores))
+
+    r6 = chk.rule("R6-copy-field-correspondence", "a deep copy assigns each duplicated string to the same field it was read from "
+                  "(`a->F = dup(b->F)` for two objects of one record type)", primary=False, floor=5)
+    if memrules.dup_field_correspondence(prog, r6) < 5:
+        raise Broken("fewer than 5 duplicated-field stores found")
